@@ -16,7 +16,7 @@ import (
 func init() { Registry["C13"] = checkC13 }
 
 func checkC13(p *core.Prog, r *core.Report) {
-	r.Explanation = "Decides a stated domain of crash sites reachable from client input (connection goroutines have no recover(), checked as a fact): (R1) in every function of server/ and protocol/ that receives a text command's argument list ([]string parameter), every index args[c], args[v+c] and re-slice args[c:] is covered on its path by a length test of that list (len(args) lower bound from ==, <, <=, != tests in either polarity; v+c forms by a test of the same v against len(args)); a guard on a different expression of v does not count; (R2) every result code has an ERROR_MSG entry; (R3) the optional pointers LockCommand.Data, LockResultCommand.Data, LockManager.currentData and Lock.data are dereferenced (field access or method call) only on paths that tested them non-nil; (R4) constant indexes into client value frames (LockCommandData.Data, origin byte frames) are covered by a length test or by the frame reader's minimum length. Sites outside the domain (indices through struct fields, data-dependent offsets, loops with stride arithmetic) are counted as outside_domain and not claimed. (R5) in the text parser and stream readers an index of the form v-c (c>0) is covered by a test v >= c on its path. (R6) in the text parser every rbuf[e] has e < bufLen and every rbuf[a:b] has b <= bufLen on its path (linear entailment over the symbolic cursor and length; loop-carried locals are outside the domain); (R7) the per-connection reply buffer: every advance of the write index provably fits and the invariant index+64 <= len(buf) is re-established at every exit (inductive, assuming it at entry); (R8) the text protocol's recycled reply object has every argument-dependent field reassigned on every path before hand-over; (R9) constant and constant-bounded loop indexes into fixed-capacity tables (slices only ever made with a constant length) stay below the capacity (field cursors: only where a path fact bounds the cursor, and not in functions whose exploration exceeds the step budget). (R10) every make() whose size derives from an integer decoded from the wire (strconv parse, multi-byte word, a field holding one; parameters not followed) is bounded by the width of the decoded word (<= 32 bits) or by a test on its path - the out-of-range panic of make, not memory exhaustion. NOT decided: integer overflow, memory exhaustion by large but representable allocations, channel/close misuse, type assertions, deadlock, stack exhaustion."
+	r.Explanation = "Decides a stated domain of crash sites reachable from client input (connection goroutines have no recover(), checked as a fact): (R1) in every function of server/ and protocol/ that receives a text command's argument list ([]string parameter), every index args[c], args[v+c] and re-slice args[c:] is covered on its path by a length test of that list (len(args) lower bound from ==, <, <=, != tests in either polarity; v+c forms by a test of the same v against len(args)); a guard on a different expression of v does not count; (R2) every result code has an ERROR_MSG entry; (R3) the optional pointers LockCommand.Data, LockResultCommand.Data, LockManager.currentData and Lock.data are dereferenced (field access or method call) only on paths that tested them non-nil; (R4) constant indexes into client value frames (LockCommandData.Data, origin byte frames) are covered by a length test or by the frame reader's minimum length. Sites outside the domain (indices through struct fields, data-dependent offsets, loops with stride arithmetic) are counted as outside_domain and not claimed. (R5) in the text parser and stream readers an index of the form v-c (c>0) is covered by a test v >= c on its path. (R6) in the text parser every rbuf[e] has e < bufLen and every rbuf[a:b] has b <= bufLen on its path (linear entailment over the symbolic cursor and length; loop-carried locals are outside the domain); (R7) the per-connection reply buffer: every advance of the write index provably fits and the invariant index+64 <= len(buf) is re-established at every exit (inductive, assuming it at entry); (R8) the text protocol's recycled reply object has every argument-dependent field reassigned on every path before hand-over; (R9) constant and constant-bounded loop indexes into fixed-capacity tables (slices only ever made with a constant length) stay below the capacity (field cursors: only where a path fact bounds the cursor, and not in functions whose exploration exceeds the step budget). (R10) every make() whose size derives from an integer decoded from the wire (strconv parse, multi-byte word, a field holding one; parameters not followed) is bounded by the width of the decoded word (<= 32 bits) or by a test on its path - the out-of-range panic of make, not memory exhaustion. (R11) an index into a fixed-capacity table that is decoded from a client's message (protobuf request field, wire command field) is bounded by the width of its type or by a test on its path. NOT decided: integer overflow, memory exhaustion by large but representable allocations, channel/close misuse, type assertions, deadlock, stack exhaustion."
 	r.Assumptions = []string{"Go type checker and go/ssa are correct for /repo", "a handler dispatched through a command registry receives the parsed command with its name at args[0] (len(args) >= 1)", "a panic in any goroutine started for a connection kills the process (no recover in Server.handle: asserted)"}
 	c13NoRecover(p, r)
 	c13R1(p, r)
@@ -1211,6 +1211,8 @@ func c13R9(p *core.Prog, r *core.Report) {
 		}
 	}
 	pathIdx := map[*ssa.Function]bool{}
+	isWire, _ := c13WireInts(p)
+	r.Rule("C13/R11", "an index into a fixed-capacity table that is decoded from a client's message (a field of a protobuf request, a wire integer) is bounded by the width of its type or by a test on its path", 20)
 	defer func() {
 		// cursors: a path fact that bounds the cursor must bound it below the capacity
 		var fns []*ssa.Function
@@ -1248,7 +1250,36 @@ func c13R9(p *core.Prog, r *core.Report) {
 					}
 					e := core.Plain(x.Canon(ia.Index).S)
 					ub := x.St.Facts.UpperBound(e)
+					if wired, _ := c13WireIndex(ia.Index, isWire); wired && ub > 1<<40 {
+						// tested against the table's own length
+						table := "len(" + core.Plain(x.Canon(ld).S) + ")"
+						strip := func(t string) string {
+							for _, c := range []string{"int(", "uint32(", "uint(", "int64(", "uint64("} {
+								if strings.HasPrefix(t, c) && strings.HasSuffix(t, ")") {
+									return t[len(c) : len(t)-1]
+								}
+							}
+							return t
+						}
+						for _, a := range x.St.Facts.All() {
+							l, rr := strip(core.Plain(a.L)), strip(core.Plain(a.R))
+							if a.Op == "<" && l == strip(e) && rr == table {
+								r.Hold("C13/R11", name+": "+k.Field+"["+stable(e)+"] from the wire", x.Pos(), "tested below the table's length")
+								return
+							}
+						}
+					}
 					if ub > 1<<40 {
+						// R11: an index that comes from the wire needs a bound: its type's, or a test
+						if wired, width := c13WireIndex(ia.Index, isWire); wired {
+							key := name + ": " + k.Field + "[" + stable(e) + "] from the wire"
+							if width < in.k {
+								r.Hold("C13/R11", key, x.Pos(), fmt.Sprintf("bounded by its type (at most %d), table has %d entries", width, in.k))
+							} else {
+								r.Violate("C13/R11", key, x.Pos(), fmt.Sprintf("%s is always made with %d entries and is indexed by %s, an integer decoded from a client's message, without a bound on this path: a larger value panics (index out of range) in the connection's goroutine, which has no recover() - the process ends", k.String(), in.k, e), x.St.Trace)
+							}
+							return
+						}
 						r.Stats["R9_unbounded_cursors"]++
 						return
 					}
@@ -1584,4 +1615,59 @@ func c13R10(p *core.Prog, r *core.Report) {
 			r.Fail("C13/R10 %s: %s", name, ex.Imprecise)
 		}
 	}
+}
+
+// c13WireIndex reports whether an index value comes from a client's message
+// and the largest value its static type admits. Fields of the generated
+// protobuf request messages and of the decoded wire commands are wire data.
+func c13WireIndex(v ssa.Value, isWire func(ssa.Value) bool) (bool, int64) {
+	width := int64(1) << 62
+	if b, ok := v.Type().Underlying().(*types.Basic); ok {
+		switch b.Kind() {
+		case types.Uint8:
+			width = 255
+		case types.Uint16:
+			width = 65535
+		case types.Uint32:
+			width = 1<<32 - 1
+		}
+	}
+	inner := v
+	for {
+		if c, ok := inner.(*ssa.Convert); ok {
+			inner = c.X
+			if b, ok := inner.Type().Underlying().(*types.Basic); ok {
+				switch b.Kind() {
+				case types.Uint8:
+					if width > 255 {
+						width = 255
+					}
+				case types.Uint16:
+					if width > 65535 {
+						width = 65535
+					}
+				}
+			}
+			continue
+		}
+		break
+	}
+	if isWire(v) {
+		return true, width
+	}
+	if u, ok := inner.(*ssa.UnOp); ok && u.Op == token.MUL {
+		if fa, ok := u.X.(*ssa.FieldAddr); ok {
+			t := fa.X.Type()
+			if pt, ok := t.Underlying().(*types.Pointer); ok {
+				t = pt.Elem()
+			}
+			if nt, ok := t.(*types.Named); ok && nt.Obj().Pkg() != nil {
+				path := nt.Obj().Pkg().Path()
+				if strings.HasSuffix(path, "/protocol/protobuf") || strings.HasSuffix(path, "/protocol") {
+					return true, width
+				}
+			}
+		}
+	}
+	return false, width
 }
